@@ -490,7 +490,7 @@ func TestRandomDefinitionSets(t *testing.T) {
 	if nulTolerated() {
 		rec.Assume("listed finding nul-epsilon: a character set containing code point 0 may also match the empty string; nothing else is tolerated")
 	}
-	rec.Check(t, 1500, 60000, func(t *rapid.T) {
+	rec.Check(t, 4000, 60000, func(t *rapid.T) {
 		defs := genDefs(t)
 		if len(defs) < 2 {
 			defs = append(defs, &Def{Name: "zz", Kind: "literal", Text: "zz", Chars: "zz", Literal: true}, &Def{Name: "TZ", Kind: "pattern", Text: "z+", Tree: &ref.Pat{K: "q", Subs: []*ref.Pat{{K: "lit", R: 'z'}}, Min: 1, Max: -1, QForm: "+"}})
